@@ -148,11 +148,13 @@ class Run:
         if self.errors:
             for e in self.errors:
                 print(f'ANALYSIS-ERROR property={self.prop} {e}')
-            # known findings may still be printed, violations are withheld:
-            for ln in lines:
-                if ln.startswith('KNOWN-FINDING'):
-                    print(ln)
-            return 2
+            if not n_viol:
+                for ln in lines:
+                    if ln.startswith('KNOWN-FINDING'):
+                        print(ln)
+                return 2
+            # a rule that lost its instances *and* concrete violations elsewhere: the
+            # violations name constructs and are reported; the shortfall is printed above
         for ln in lines:
             print(ln)
         if n_viol:
